@@ -97,6 +97,14 @@ theorem any_roundtrip_full_false : ¬ any_roundtrip_full := by
   revert h6
   decide
 
+/-- the provable part of `any_roundtrip_full` under its conventional name: the excluded region is
+exactly `treeOK` (attribute values `p:local` with `p` declared, `xsi:nil`, Clark names of builtin
+datatypes / on `xsi:type`) -/
+theorem any_roundtrip_partial (e : BEnv) (Γ : Ctx) (cfg : ParserConfig) (isDt : Str → Bool) (var : XmlVar) (t : Tree)
+    (hw : var.isWildcard = true) (hok : treeOK isDt t = true) (htl : rootTailBlank e.py t = true) :
+    ∃ t', wildRoundtrip1 e Γ cfg isDt var t = .ok t' ∧ wsEq e.py t' t :=
+  any_roundtrip_ws e Γ cfg isDt var t hw hok htl
+
 /-- witness 2: `<foo xsi:nil="true"/>` under a non-nillable wildcard: `WildcardNode.bind` turns the
 missing text into `""`, and `flush_start(is_nil=False)` pops `xsi:nil` -/
 def wNil : Tree := .node (s "foo") [(xsiNil, s "true")] [] none [] none
